@@ -140,6 +140,26 @@ class Kinds(object):
                     continue
                 for k in self._class_names_of(n.args[1], f):
                     env.setdefault(n.args[0].id, set()).add(k)
+                    self.__dict__.setdefault("tested_kinds", {}).setdefault((f.qualname, n.args[0].id), set()).add(k)
+        # the same test made by a private helper on the caller's parameter (`self._require_content_type(value)`)
+        tested = self.__dict__.get("tested_kinds", {})
+        for n in walk_no_nested(f.node):
+            if not (isinstance(n, ast.Call) and n.args and any(isinstance(a, ast.Name) and a.id in f.params for a in n.args)):
+                continue
+            fn = n.func
+            nm = fn.attr if isinstance(fn, ast.Attribute) else fn.id if isinstance(fn, ast.Name) else ""
+            if not (nm.startswith("_") and not nm.startswith("__")):
+                continue
+            for tgt in self.resolve_call(n, f, env):
+                if not isinstance(tgt, FuncInfo):
+                    continue
+                params = tgt.params[1:] if (tgt.has_self and not self._is_unbound_call(n, tgt, f, env)) else tgt.params
+                for i, a in enumerate(n.args):
+                    if isinstance(a, ast.Name) and a.id in f.params and i < len(params) and (f.short, a.id) not in self.param_table:
+                        ks = tested.get((tgt.qualname, params[i]), ())
+                        if ks:
+                            env.setdefault(a.id, set()).update(ks)
+                            tested.setdefault((f.qualname, a.id), set()).update(ks)
 
     def _visit_block(self, stmts, f, env, view):
         """walk statements; `view` is env overlaid with isinstance narrowings valid in this block."""
